@@ -1,7 +1,7 @@
 /-
   `validate`, first half: the rules shared by single- and multi-file torrents and the
   announce-list loops.  For every stage two lemmas: `_err` (nothing but MetainfoError can be
-  raised, below the int→str limit) and `_ok` (what a successful run establishes).
+  raised) and `_ok` (what a successful run establishes).
 -/
 import Torf.Lemmas.ValidateBase
 namespace Torf.Validate
@@ -42,12 +42,12 @@ theorem assertFinal_dict_ok {kvs : Items} {s : String} {r : Rule}
   exact ⟨v, getItem_dict_s_val hv, h1 v hv⟩
 
 theorem assertFinal_dict_err {kvs : Items} {k : Key} {r : Rule} {e : ErrKind}
-    (hs : Small (.dict kvs)) (h : assertFinal (.dict kvs) k r = .error e) : e = .metainfo :=
-  assertFinal_err (keyFits_dict kvs k) hs h
+    (h : assertFinal (.dict kvs) k r = .error e) : e = .metainfo :=
+  assertFinal_err (keyFits_dict kvs k) h
 
 theorem assertFinal_i_err {obj : PyVal} {n : Nat} {r : Rule} {e : ErrKind}
-    (hs : Small obj) (h : assertFinal obj (.i n) r = .error e) : e = .metainfo :=
-  assertFinal_err (keyFits_i obj n) hs h
+    (h : assertFinal obj (.i n) r = .error e) : e = .metainfo :=
+  assertFinal_err (keyFits_i obj n) h
 
 theorem assertType_info {items info : Items}
     (hinfo : PyVal.lookupStr "info" items = some (.dict info)) (x : String) (r : Rule) :
@@ -104,28 +104,27 @@ theorem checkCommon_ok {items : Items} (h : checkCommon urlOk (.dict items) = .o
   · have := (assertFinal_dict_ok h8).1 v hv
     simpa [passes] using this
 
-theorem checkCommon_err {items : Items} {e : ErrKind} (hs : Small (.dict items))
+theorem checkCommon_err {items : Items} {e : ErrKind}
     (h : checkCommon urlOk (.dict items) = .error e) : e = .metainfo := by
   unfold checkCommon at h
   rcases bind_err h with h1 | ⟨_, h1, h⟩
-  · rw [assertType_single] at h1; exact assertFinal_dict_err hs h1
+  · rw [assertType_single] at h1; exact assertFinal_dict_err h1
   rw [assertType_single] at h1
   obtain ⟨iv, hiv, hp⟩ := (assertFinal_dict_ok h1).2 rfl
   obtain ⟨info, rfl⟩ := isDict_iff.mp (by simpa [passes] using hp)
-  have hsi : Small (.dict info) := hs.getItem (getItem_dict_s_some hiv)
   rcases bind_err h with h1 | ⟨_, _, h⟩
-  · rw [assertType_info hiv] at h1; exact assertFinal_dict_err hsi h1
+  · rw [assertType_info hiv] at h1; exact assertFinal_dict_err h1
   rcases bind_err h with h1 | ⟨_, _, h⟩
-  · rw [assertType_info hiv] at h1; exact assertFinal_dict_err hsi h1
+  · rw [assertType_info hiv] at h1; exact assertFinal_dict_err h1
   rcases bind_err h with h1 | ⟨_, _, h⟩
-  · rw [assertType_info hiv] at h1; exact assertFinal_dict_err hsi h1
+  · rw [assertType_info hiv] at h1; exact assertFinal_dict_err h1
   rcases bind_err h with h1 | ⟨_, _, h⟩
-  · rw [assertType_info hiv] at h1; exact assertFinal_dict_err hsi h1
+  · rw [assertType_info hiv] at h1; exact assertFinal_dict_err h1
   rcases bind_err h with h1 | ⟨_, _, h⟩
-  · rw [assertType_single] at h1; exact assertFinal_dict_err hs h1
+  · rw [assertType_single] at h1; exact assertFinal_dict_err h1
   rcases bind_err h with h1 | ⟨_, _, h⟩
-  · rw [assertType_single] at h1; exact assertFinal_dict_err hs h1
-  rw [assertType_single] at h; exact assertFinal_dict_err hs h
+  · rw [assertType_single] at h1; exact assertFinal_dict_err h1
+  rw [assertType_single] at h; exact assertFinal_dict_err h
 
 /-! ### the announce-list loops -/
 
@@ -142,17 +141,17 @@ theorem checkTier_cases {items : Items} {al : PyVal} {i : Nat}
     (hal : PyVal.lookupStr "announce-list" items = some al) (r : Except ErrKind Unit)
     (h : checkTier urlOk (.dict items) i = r) :
     (r = .ok () → TierFacts urlOk al i) ∧
-    (∀ e, r = .error e → Small (.dict items) → e = .metainfo) := by
+    (∀ e, r = .error e → e = .metainfo) := by
   have hg := getItem_dict_s_some hal
   subst h
   unfold checkTier
   rw [assertType_step hg, assertType_single]
   cases h1 : assertFinal al (.i i) { types := PyVal.isIterable } with
   | error e1 =>
-    refine ⟨fun h => absurd h (by simp [bind, Except.bind]), fun e h hs => ?_⟩
+    refine ⟨fun h => absurd h (by simp [bind, Except.bind]), fun e h => ?_⟩
     simp only [bind, Except.bind, Except.error.injEq] at h
     subst h
-    exact assertFinal_i_err (hs.getItem hg) h1
+    exact assertFinal_i_err h1
   | ok u =>
     obtain ⟨tier, htier⟩ := (assertFinal_ok h1).2 rfl
     have hit : tier.isIterable = true := by
@@ -168,10 +167,10 @@ theorem checkTier_cases {items : Items} {al : PyVal} {i : Nat}
       have hp := (assertFinal_ok this).1 v hv
       simp only [passes, Bool.and_eq_true] at hp
       exact ⟨v, hv, hp.1, hp.2⟩
-    · intro e h hs
+    · intro e h
       obtain ⟨j, _, hj⟩ := forM_err h
       rw [assertType_step hg, assertType_step htier, assertType_single] at hj
-      exact assertFinal_i_err ((hs.getItem hg).getItem htier) hj
+      exact assertFinal_i_err hj
 
 /-- what `checkAnnounceList` establishes -/
 def AnnounceFacts (items : Items) : Prop :=
@@ -189,7 +188,7 @@ theorem checkAnnounceList_ok {items : Items}
   refine ⟨xs, hxs, fun i hi => ?_⟩
   exact (checkTier_cases urlOk hl _ rfl).1 (forM_ok h i (List.mem_range.mpr hi))
 
-theorem checkAnnounceList_err {items : Items} {e : ErrKind} (hs : Small (.dict items))
+theorem checkAnnounceList_err {items : Items} {e : ErrKind}
     (hal : ∀ v, PyVal.lookupStr "announce-list" items = some v → v.isIterable = true)
     (h : checkAnnounceList urlOk (.dict items) items = .error e) : e = .metainfo := by
   unfold checkAnnounceList at h
@@ -199,6 +198,6 @@ theorem checkAnnounceList_err {items : Items} {e : ErrKind} (hs : Small (.dict i
     obtain ⟨xs, hxs, hie⟩ := iterE_of_isIterable (hal al hl)
     simp only [hie, bind, Except.bind] at h
     obtain ⟨i, _, hi⟩ := forM_err h
-    exact (checkTier_cases urlOk hl _ hi).2 e rfl hs
+    exact (checkTier_cases urlOk hl _ hi).2 e rfl
 
 end Torf.Validate
